@@ -3328,7 +3328,7 @@ class Canon:
                         slots = [(call.args, i_) for i_ in range(len(call.args))] + [(k, None) for k in call.keywords]
                         for holder, i_ in slots:
                             v = holder[i_] if i_ is not None else holder.value
-                            if _simple_arg(v):
+                            if isinstance(v, (ast.Name, ast.Constant)):
                                 continue
                             cnt[0] += 1
                             nm = f"{st.targets[0].id}__t{cnt[0]}"
